@@ -29,7 +29,7 @@ def check(run):
         det = s.details.get(seq, {})
         key = dict(clause=clause, op=ev['op'], q=ev.get('q'), template=s.template, nan=det.get('nan'),
                    isolated_fixed=any(det.get('isolated_fixed', [])) if det else None)
-        if clause in ('opt-report', 'opt-split', 'opt-verbose'):
+        if clause in ('opt-report', 'opt-split', 'opt-verbose', 'opt-raised'):
             continue        # the report / stopping rule is C12's property
         if clause == 'opt-effect' and det.get('nan'):
             continue        # a fixed vertex moved by a NaN solve is C06's property (fault sequences), reported there
